@@ -411,12 +411,12 @@ func init() {
 		wsets: map[string]string{"*GeneratorBase.commonFlags.TypeNames": "CliSelPrims.set_types"},
 		wmaps: map[string]string{"*GeneratorBase.fileNameMap": "CliSelPrims.fmap_set"},
 		prims: map[string]prim{
-			"getGoFile":            {coq: "getGoFile_o", args: []int{1}, results: []string{"string"}},
-			"TypeLister.ListTypes": {coq: "ListTypes_o", args: nil, results: []string{"[]string"}},
-			"*ast.File.Pos":                 {recv: true, coq: "CliSelPrims.file_pos", results: []string{"token.Pos"}},
+			"getGoFile":                    {coq: "getGoFile_o", args: []int{1}, results: []string{"string"}},
+			"TypeLister.ListTypes":         {coq: "ListTypes_o", args: nil, results: []string{"[]string"}},
+			"*ast.File.Pos":                {recv: true, coq: "CliSelPrims.file_pos", results: []string{"token.Pos"}},
 			"*GeneratorBase.pkg.Fset.File": {coq: "CliSelPrims.fset_file", args: []int{0}, results: []string{"*token.File"}},
-			"*token.File.Name":              {recv: true, coq: "CliSelPrims.tok_name", results: []string{"string"}},
-			"filepath.Base":                 {coq: "CliSelPrims.path_base", args: []int{0}, results: []string{"string"}},
+			"*token.File.Name":             {recv: true, coq: "CliSelPrims.tok_name", results: []string{"string"}},
+			"filepath.Base":                {coq: "CliSelPrims.path_base", args: []int{0}, results: []string{"string"}},
 		},
 		fatals: map[string]bool{"logx.Fatalf": true},
 		nilPan: "PNilDeref",
@@ -452,7 +452,7 @@ func init() {
 		wderefs: map[string]wderef{
 			"*[]*Field": {get: "(CtorPrims.old_locs w)", typ: "[]*Field", app: "CtorPrims.append_cell"},
 		},
-		fresh: map[string]int{"checkShadowAndAppend": 1},
+		fresh:  map[string]int{"checkShadowAndAppend": 1},
 		nilPan: "PNilDeref",
 	}
 }
@@ -509,8 +509,8 @@ func init() {
 		ptrs:  map[string]bool{"*Field|nil": true},
 		optOf: map[string]string{"*Field|nil": "*Field"},
 		fields: map[string]map[string]field{
-			"Field":      {"Name": {"Mapper.f_name", "string"}, "backingName": {"Mapper.f_backing", "string"}},
-			"shoot.Func": {"Name": {"Mapper.mf_name", "string"}, "Param": {"Mapper.mf_param", "types.Type"}, "Result": {"Mapper.mf_result", "types.Type"}},
+			"Field":             {"Name": {"Mapper.f_name", "string"}, "backingName": {"Mapper.f_backing", "string"}},
+			"shoot.Func":        {"Name": {"Mapper.mf_name", "string"}, "Param": {"Mapper.mf_param", "types.Type"}, "Result": {"Mapper.mf_result", "types.Type"}},
 			"*packages.Package": {"PkgPath": {"MapPrims.pkg_path_of", "pkgpath"}},
 		},
 		records: map[string]map[string]recField{
